@@ -74,6 +74,14 @@ EDITS = {
     # v9: the returned leaf is adjusted by a callee before the SCT is built (addition, through a helper method)
     "v9-returned-leaf-adjusted-by-callee": [(H, "	// As the Log server has definitely got the Merkle tree leaf, we can\n", "	CapTimestamp(&loggedLeaf, timeMillis)\n	// As the Log server has definitely got the Merkle tree leaf, we can\n"),
         (H, "// appendUserCharge adds", "// CapTimestamp keeps a leaf from being dated after now.\nfunc CapTimestamp(leaf *ct.MerkleTreeLeaf, now uint64) {\n	if leaf.TimestampedEntry.Timestamp > now {\n		leaf.TimestampedEntry.Timestamp = now\n	}\n}\n\n// appendUserCharge adds")],
+    # v10: three calls below the reader, the function that lays out the extra data drops a trailing root by
+    #      blanking the element of the list it was handed (precert submissions only)
+    "v10-extra-data-blanks-element": [("trillian/util/log_leaf.go", "		// For a pre-cert, the extra data is a TLS-encoded PrecertChainEntry.\n		extra = ct.PrecertChainEntry{", "		// For a pre-cert, the extra data is a TLS-encoded PrecertChainEntry.\n		if n := len(chain); n > 1 {\n			chain[n-1].Data = nil\n		}\n		extra = ct.PrecertChainEntry{")],
+    # v11: buildLeaf shifts the pre-issuer out of the chain with copy before handing it on
+    "v11-copy-shift-in-wrapper": [(H, "	return li.issuanceChainService.BuildLogLeaf(ctx, chain, li.LogPrefix, merkleLeaf, isPrecert)\n", "	if isPrecert && len(chain) > 2 && ct.IsPreIssuer(chain[1]) {\n		n := copy(chain[1:], chain[2:])\n		chain = chain[:1+n]\n	}\n	return li.issuanceChainService.BuildLogLeaf(ctx, chain, li.LogPrefix, merkleLeaf, isPrecert)\n")],
+    # v12: the seed's filter as a method, compacting with index stores instead of append
+    "v12-method-compacts-by-index": early(LOOP % "li.quotaIssuers(chain)") + [
+        (H, "// appendUserCharge adds", "// quotaIssuers returns the certificates that are charged for a submission.\nfunc (li *logInfo) quotaIssuers(chain []*x509.Certificate) []*x509.Certificate {\n	issuers := chain[1:]\n	n := 0\n	for _, cert := range issuers {\n		if !ct.IsPreIssuer(cert) {\n			issuers[n] = cert\n			n++\n		}\n	}\n	return issuers[:n]\n}\n\n// appendUserCharge adds")],
     # ---- benign --------------------------------------------------------------------------------------------
     # b1: the legitimate version of the seed: quota users first, pre-issuers skipped, filter allocates
     "b1-quota-early-filter-allocates": early(LOOP % "QuotaIssuers(chain)") + [IMP_CT,
